@@ -75,6 +75,10 @@ def run(ctx):
                 L.append('static_assert(std::is_same<CommonUnitT<%s>, C%d>::value, "c%d permutation-%s");' % (", ".join(names[x] for x in p), k, k, "".join(map(str, p))))
             L.append('static_assert(std::is_same<CommonUnitT<%s>, C%d>::value, "c%d repetition");' % (", ".join([names[n - 1]] + names + [names[0]]), k, k))
             L.append('static_assert(has_same_dimension(C%d{}, %s{}), "c%d same-dimension");' % (k, names[0], k))
+            # the other spellings of the same question
+            L.append('static_assert(std::is_same<decltype(common_unit(%s)), C%d>::value, "c%d spelling-common-unit-fn");' % (", ".join(x + "{}" for x in names), k, k))
+            L.append('static_assert(std::is_same<AssociatedUnitT<decltype(make_common(%s))>, C%d>::value, "c%d spelling-make-common-makers");' % (", ".join("QuantityMaker<%s>{}" % x for x in names), k, k))
+            L.append('static_assert(std::is_same<AssociatedUnitT<decltype(make_common(%s))>, C%d>::value, "c%d spelling-make-common-symbols");' % (", ".join("SymbolFor<%s>{}" % x for x in names), k, k))
             if c["rational"]:
                 for j in range(n):
                     stats["cofactors"] += 1
